@@ -155,7 +155,8 @@ class IterV:
 
 
 def as_iter(v):
-    v = unref(v) if isinstance(v, RefV) and isinstance(v.load(), IterV) else v
+    while isinstance(v, RefV) and isinstance(v.load(), (IterV, Agg, RefV)):
+        v = v.load()
     if isinstance(v, IterV):
         return v
     if isinstance(v, Agg) and v.ty == 'RangeInclusive':
@@ -213,7 +214,7 @@ def dispatch(engine, st, callee, args, dest_ty):
             tup = args[1]
             cargs = list(tup.fields) if isinstance(tup, Agg) else []
             return engine.call_closure(st, args[0], cargs)
-        r = std_trait(engine, st, ty, tyb, tb, method, args, dest_ty)
+        r = std_trait(engine, st, ty, tyb, tb, method, args, dest_ty, trait)
         if r is not NotImplemented:
             return r
         # state accessors generated by the custom_*_state!/custom_dimension! macros
@@ -223,6 +224,12 @@ def dispatch(engine, st, callee, args, dest_ty):
         fns = engine.prog.find_method(tyb, method, trait=tb)
         if len(fns) == 1:
             return engine.exec_fn(st, fns[0], args)
+        if not fns:
+            # #[derive(..)] impls are listed under the derive attribute's location
+            der = [f for f in engine.prog.by_last.get(method, []) if f.impl_loc and '{closure' not in f.name
+                   and (engine.prog.impl_header(f) or (None, None)) == ('derive', tyb)]
+            if len(der) == 1:
+                return engine.exec_fn(st, der[0], args)
         if not fns and tb:
             # default method of the trait (e.g. ActivityCost::cost) defined in the trait itself
             cands = [f for f in engine.prog.by_last.get(method, []) if f.name.endswith(f'{tb}::{method}') and '{closure' not in f.name]
@@ -299,7 +306,7 @@ def option_arg(v):
     return o
 
 
-def std_trait(engine, st, ty, tyb, tb, method, args, dest_ty):
+def std_trait(engine, st, ty, tyb, tb, method, args, dest_ty, trait=None):
     """Std trait methods."""
     if tb in ('Deref', 'DerefMut', 'AsRef', 'Borrow') and method in ('deref', 'deref_mut', 'as_ref', 'borrow'):
         a = args[0]
@@ -385,7 +392,27 @@ def std_trait(engine, st, ty, tyb, tb, method, args, dest_ty):
     if tb == 'From' and method == 'from':
         return args[0]
     if tb == 'Into' and method == 'into':
+        if 'TinyVec' in (trait or '') or 'Vec<' in (trait or ''):
+            s = seq_of(args[0])
+            return VecV([copy_value(x) for x in (s.items if isinstance(s, VecV) else s.fields)])
         return args[0]
+    if tb == 'FromIterator' and method == 'from_iter':
+        it = iterator_method(engine, st, 'into_iter', [args[0]], '')
+        return VecV(list(it.items))
+    if tyb == 'Ordering' and tb == 'PartialEq' and method in ('eq', 'ne'):
+        a, b = deref_all(args[0]), deref_all(args[1])
+        t = a.discr == b.discr
+        return BV(zs(t if method == 'eq' else z3.Not(t)))
+    if tb == 'PartialOrd' and method in ('lt', 'le', 'gt', 'ge') and not isinstance(deref_all(args[0]), (FV, FP, IV)):
+        # provided methods of PartialOrd on a user type: defined through its partial_cmp
+        fns = engine.prog.find_method(tyb, 'partial_cmp', trait='PartialOrd')
+        if len(fns) == 1:
+            o = engine.exec_fn(st, fns[0], [args[0], args[1]])
+            if isinstance(o, EnumV) and o.payload.get(1):
+                d = o.payload[1][0].discr
+                some = o.discr == 1
+                t = {'lt': d == -1, 'le': d != 1, 'gt': d == 1, 'ge': d != -1}[method]
+                return BV(zs(z3.And(some, t)))
     return NotImplemented
 
 
@@ -576,8 +603,8 @@ def std_path(engine, st, name, args, dest_ty):
     # ---- Option
     if first == 'Option' or (len(segs) >= 2 and segs[-2] == 'Option'):
         return option_method(engine, st, last, args, dest_ty)
-    # ---- Vec / slices
-    if first == 'Vec' or '<impl [' in name or (len(segs) >= 2 and segs[-2] == 'Vec'):
+    # ---- Vec / slices (TinyVec is modelled as a plain sequence: its inline/heap switch is not the subject)
+    if first in ('Vec', 'TinyVec') or '<impl [' in name or (len(segs) >= 2 and segs[-2] in ('Vec', 'TinyVec')):
         return seq_method(engine, st, last, args, dest_ty)
     if 'HashMap' in name and last == 'get':
         from symex import MapV
